@@ -9,12 +9,30 @@ import PyodaProofs.C08DateTime
 namespace Pyoda.C08
 open Pyoda Pyoda.Text
 
-/-- the steps a handler added are well formed and contain the setter of every month / day field it recorded -/
+/-- the field bit of the slots an embedded date / time pattern assigns -/
+def trackedBit : Slot → Nat
+  | .year => F.year
+  | .monthNum => F.monthNum
+  | .dayOfMonth => F.dayOfMonth
+  | .hours24 => F.hours24
+  | .minutes => F.minutes
+  | .seconds => F.seconds
+  | .fraction => F.fraction
+  | _ => 0
+
+/-- a step that assigns one of the tracked slots has that slot's field bit among `bits` -/
+def SetterBits (bits : Nat) (s : Step) : Prop :=
+  ∀ x, stepSets s = some x → trackedBit x ≠ 0 → hasAny bits (trackedBit x) = true
+
+/-- the steps a handler added are well formed and contain the setter of every month / day field it recorded;
+    conversely every added setter of a tracked slot recorded its field; no embedded-pattern bit is recorded -/
 def Good (bits : Nat) (added : List Step) : Prop :=
   added.all dtStepWF = true ∧
   (hasAny bits F.monthNum = true → added.any (setsSlot .monthNum) = true) ∧
   (hasAny bits F.dayOfMonth = true → added.any (setsSlot .dayOfMonth) = true) ∧
-  (hasAny bits F.monthText = true → added.any (setsSlot .monthText) = true)
+  (hasAny bits F.monthText = true → added.any (setsSlot .monthText) = true) ∧
+  (∀ s ∈ added, SetterBits bits s) ∧
+  hasAny bits (F.embeddedDate ||| F.embeddedTime) = false
 
 /-- one handler call: field bits OR-ed in, steps appended -/
 def Ext (st st' : CSt) : Prop :=
@@ -30,7 +48,7 @@ theorem hasAny_or (u b T : Nat) : hasAny (u ||| b) T = (hasAny u T || hasAny b T
 
 theorem inv_ext (st st' : CSt) (hi : Inv st) (he : Ext st st') : Inv st' := by
   obtain ⟨hw, hs⟩ := hi
-  obtain ⟨bits, added, e1, e2, g1, g2, g3, g4⟩ := he
+  obtain ⟨bits, added, e1, e2, g1, g2, g3, g4, _, _⟩ := he
   unfold fieldsSound at hs
   simp only [Bool.and_eq_true, Bool.or_eq_true, Bool.not_eq_true'] at hs
   obtain ⟨⟨s1, s2⟩, s3⟩ := hs
@@ -56,12 +74,14 @@ theorem inv_ext (st st' : CSt) (hi : Inv st) (he : Ext st st') : Inv st' := by
       · right; left; exact e
 
 theorem ext_refl (st : CSt) : Ext st st :=
-  ⟨0, [], by simp, by simp, rfl, fun h => absurd h (by decide), fun h => absurd h (by decide), fun h => absurd h (by decide)⟩
+  ⟨0, [], by simp, by simp, rfl, fun h => absurd h (by decide), fun h => absurd h (by decide), fun h => absurd h (by decide),
+    fun s hs => (by simp at hs), by decide⟩
 
-/-- a literal (or any well-formed step that records no field) -/
-theorem ext_addStep (st : CSt) (s : Step) (hw : dtStepWF s = true) : Ext st (addStep st s) :=
+/-- a literal (a well-formed step that records no field and assigns no slot) -/
+theorem ext_addStep (st : CSt) (s : Step) (hw : dtStepWF s = true) (hn : stepSets s = none := by rfl) : Ext st (addStep st s) :=
   ⟨0, [s], by simp [addStep], rfl, by simp [hw], fun h => absurd h (by decide), fun h => absurd h (by decide),
-    fun h => absurd h (by decide)⟩
+    fun h => absurd h (by decide),
+    fun t ht => (by simp only [List.mem_singleton] at ht; subst ht; intro x hx; rw [hn] at hx; cases hx), by decide⟩
 
 theorem addField_ok (st st' : CSt) (bit : Nat) (h : addField st bit = .ok st') :
     st'.used = st.used ||| bit ∧ st'.steps = st.steps := by
@@ -82,11 +102,21 @@ theorem ext_step_field (st st' : CSt) (bit : Nat) (s : Step) (h : addField (addS
   obtain ⟨e1, e2⟩ := addField_ok _ st' bit h
   exact ⟨bit, [s], by simp [addStep, e1], by simp [addStep, e2], g⟩
 
-/-- `Good` for a field bit that is none of the tracked month / day bits -/
+/-- `Good` for a field bit that is none of the month / day bits whose setters are tracked -/
 theorem good_untracked (bit : Nat) (s : Step) (hw : dtStepWF s = true) (h1 : hasAny bit F.monthNum = false)
-    (h2 : hasAny bit F.dayOfMonth = false) (h3 : hasAny bit F.monthText = false) : Good bit [s] :=
+    (h2 : hasAny bit F.dayOfMonth = false) (h3 : hasAny bit F.monthText = false)
+    (hc : SetterBits bit s) (he : hasAny bit (F.embeddedDate ||| F.embeddedTime) = false) : Good bit [s] :=
   ⟨by simp [hw], fun h => (by rw [h1] at h; cases h), fun h => (by rw [h2] at h; cases h),
-    fun h => (by rw [h3] at h; cases h)⟩
+    fun h => (by rw [h3] at h; cases h),
+    fun t ht => (by simp only [List.mem_singleton] at ht; subst ht; exact hc), he⟩
+
+/-- discharges `SetterBits bit s` for a concrete step and bit -/
+macro "setter_bits" : tactic => `(tactic|
+  (intro x hx hne
+   simp only [stepSets, Option.some.injEq] at hx
+   first
+     | (subst hx; first | exact absurd rfl hne | decide)
+     | cases hx))
 
 theorem handlePadded_ext (c : Char) (rest : Text) (st : CSt) (maxCount bit : Nat) (minV maxV : Int) (slot : Slot)
     (hg : ∀ n, Good bit [.num slot slot n maxCount minV maxV])
